@@ -14,7 +14,7 @@ func TestCheck(t *testing.T) {
 	run.Each(n, 8, func(i int) {
 		Case(run, i)
 		if i%16 == 0 {
-			ConcurrentCase(run, i)
+			ConcurrentCase(run, i, i%32 == 0)
 		}
 	})
 }
